@@ -1,0 +1,28 @@
+//go:build verif
+
+package ratelimiter
+
+import "time"
+
+type verifStopwatch struct {
+	elapsed func() time.Duration
+}
+
+func (s *verifStopwatch) ElapsedTime() time.Duration {
+	return s.elapsed()
+}
+
+func (s *verifStopwatch) Reset() {}
+
+// VerifWithStopwatch replaces the elapsed-time source of the limiter with elapsed. Only available with the verif build
+// tag.
+func VerifWithStopwatch[R any](limiter RateLimiter[R], elapsed func() time.Duration) RateLimiter[R] {
+	sw := &verifStopwatch{elapsed: elapsed}
+	switch s := limiter.(*rateLimiter[R]).stats.(type) {
+	case *smoothStats[R]:
+		s.stopwatch = sw
+	case *burstyStats[R]:
+		s.stopwatch = sw
+	}
+	return limiter
+}
